@@ -47,6 +47,10 @@ CHECKS = {
          "Fault enumeration: 7 conflict kinds x 13 sizes of the surrounding admin-policy set (both sides of the sort algorithm switch at 12) x 5 positions x {list, diff dir1, diff dir2}; every cell is run with the conflict (must be rejected with a fatal, identifying error and no report) and as a conflict-free twin (must analyse cleanly). The quick tier runs every cell once, the thorough tier 12 fillers per cell.",
          "'Naming the conflict' = message contains a conflicting resource name, the offending priority, or baseline/default for BANP kinds.",
          "runtime monitoring: fault enumeration (conflicting resources) with twin control runs", "DESIGN.md §5 C19"),
+ 'C03': ('exploration',
+         "Relational monitor between recorded list results and CheckIfAllowed answers over three routes (engine from objects, engine filled by InsertObject in document order, the built binary): every pod pair, pod<->address and pod-to-itself at every rule boundary +-1 x protocols. Held on the K worlds / Q queries in the evidence.",
+         "list is the reference; boundary+-1 sampling visits every piece of two piece-wise constant functions; numeric ports only.",
+         "runtime monitoring: differential oracle between list results and eval answers (library + binary)", "DESIGN.md §5 C03"),
 }
 
 NOT_YET = "check not built yet (construction in progress, see DESIGN.md section 9)"
